@@ -16,6 +16,7 @@ use std::time::Instant;
 /// Option order at a scheduling point: the running task first (if still runnable), then ascending
 /// ids; choosing anything else than a still-runnable running task costs one preemption.
 pub struct Dfs {
+    deadline: Option<Instant>,
     levels: Vec<(usize, usize)>,
     steps: usize,
     preempt: usize,
@@ -29,10 +30,12 @@ pub struct DfsShared {
     pub max_depth: AtomicUsize,
     pub choices: Mutex<Vec<usize>>,
     pub nondeterminism: Mutex<Option<String>>,
+    /// the time budget ran out before the schedule tree was exhausted
+    pub capped: std::sync::atomic::AtomicBool,
 }
 impl Dfs {
-    pub fn new(bound: Option<usize>, shared: Arc<DfsShared>) -> Dfs {
-        Dfs { levels: vec![], steps: 0, preempt: 0, bound, started: false, shared }
+    pub fn new(bound: Option<usize>, shared: Arc<DfsShared>, budget_s: Option<f64>) -> Dfs {
+        Dfs { deadline: budget_s.map(|b| Instant::now() + std::time::Duration::from_secs_f64(b)), levels: vec![], steps: 0, preempt: 0, bound, started: false, shared }
     }
 }
 impl Scheduler for Dfs {
@@ -41,6 +44,12 @@ impl Scheduler for Dfs {
             return None;
         }
         if self.started {
+            if let Some(d) = self.deadline {
+                if Instant::now() > d {
+                    self.shared.capped.store(true, Ordering::SeqCst);
+                    return None;
+                }
+            }
             loop {
                 match self.levels.last_mut() {
                     None => return None,
@@ -259,6 +268,7 @@ impl Out {
 }
 
 pub struct Explored {
+    pub capped: bool,
     pub schedules: u64,
     pub max_depth: usize,
     pub traces: HashSet<Vec<Event>>,
@@ -283,14 +293,14 @@ fn take_msg() -> String {
 }
 
 /// Explore every schedule (within `cfg.bound`) of the real parallel range API for one configuration.
-pub fn explore_cfg(cfg: &Cfg, out: &Out) -> Explored {
+pub fn explore_cfg(cfg: &Cfg, out: &Out, budget_s: Option<f64>) -> Explored {
     let params = Params::new(Method::Isna);
     let dr = range(cfg.days);
     let expected = Arc::new(prayer_times_dt_rng(&params, location(), &dr));
     let shared = Arc::new(DfsShared::default());
     let traces: Arc<Mutex<HashSet<Vec<Event>>>> = Arc::new(Mutex::new(HashSet::new()));
     let mismatch: Arc<Mutex<Option<String>>> = Arc::new(Mutex::new(None));
-    let runner = shuttle::Runner::new(Dfs::new(cfg.bound, shared.clone()), config());
+    let runner = shuttle::Runner::new(Dfs::new(cfg.bound, shared.clone(), budget_s), config());
     let (c2, t2, e2, m2, p2) = (cfg.clone(), traces.clone(), expected.clone(), mismatch.clone(), params.clone());
     let _ = take_msg();
     let res = std::panic::catch_unwind(std::panic::AssertUnwindSafe(|| {
@@ -326,7 +336,7 @@ pub fn explore_cfg(cfg: &Cfg, out: &Out) -> Explored {
         out.violation(clause, json!({"mode": "schedule", "cfg": cfg.json(), "choices": choices}), json!({"panic": msg, "mismatch": mm, "schedule_number": shared.executions.load(Ordering::Relaxed), "events_before_failure": ipt_verif_rt::take_log().iter().map(|e| format!("{}:{}", e.0, e.1)).collect::<Vec<_>>()}));
     }
     let traces = std::mem::take(&mut *traces.lock().unwrap());
-    Explored { schedules: shared.executions.load(Ordering::Relaxed), max_depth: shared.max_depth.load(Ordering::Relaxed), traces, failed }
+    Explored { capped: shared.capped.load(Ordering::SeqCst), schedules: shared.executions.load(Ordering::Relaxed), max_depth: shared.max_depth.load(Ordering::Relaxed), traces, failed }
 }
 
 /// Run one schedule given as a list of task choices; returns (event log, result ok, error)
@@ -447,6 +457,11 @@ pub fn check(tier: &str, std_bin: &str) -> i32 {
             for threshold in [0usize, 1] {
                 let c = Cfg { w, days, threshold, fine: false, bound: None };
                 // quick: unbounded for <= 2 partitions and for the 3-partition configurations with threshold 0
+                if c.partitions() == Some(3) {
+                    for b in [0, 1, 2] {
+                        cfgs.push((format!("stock/bound{}", b), Cfg { bound: Some(b), ..c.clone() }));
+                    }
+                }
                 cfgs.push(("stock/unbounded".into(), c));
             }
         }
@@ -475,10 +490,14 @@ pub fn check(tier: &str, std_bin: &str) -> i32 {
     // threads of one process on the memory-map lock; it also isolates engine crashes)
     cfgs.sort_by_key(|(_, c)| std::cmp::Reverse((c.partitions().unwrap_or(0), c.bound.map(|b| b + 1).unwrap_or(99))));
     let me = std::env::current_exe().expect("current_exe");
+    // time budget per configuration: on the unchanged tree the largest one takes ~9 s (quick) / a few
+    // minutes (thorough); a change that adds scheduling points can blow the tree up - then the
+    // configuration is reported as capped (not exhaustive), never silently truncated
+    let budget_s: f64 = if quick { 60.0 } else { 1500.0 };
     let results: Mutex<Vec<(String, Cfg, Value)>> = Mutex::new(vec![]);
     par_for(&cfgs, |(kind, c)| {
         let want_traces = kind == "fine/unbounded" && c.partitions().map(|p| p >= 1 && c.days == p as i64).unwrap_or(false);
-        let o = std::process::Command::new(&me).args(["child-cfg", &c.json().to_string(), if want_traces { "traces" } else { "no" }]).output().expect("spawn child");
+        let o = std::process::Command::new(&me).args(["child-cfg", &c.json().to_string(), if want_traces { "traces" } else { "no" }, &budget_s.to_string()]).output().expect("spawn child");
         let text = String::from_utf8_lossy(&o.stdout).to_string();
         match text.lines().find_map(|l| l.strip_prefix("RESULT ")).and_then(|l| serde_json::from_str::<Value>(l).ok()) {
             Some(v) => results.lock().unwrap().push((kind.clone(), c.clone(), v)),
@@ -494,6 +513,7 @@ pub fn check(tier: &str, std_bin: &str) -> i32 {
     let mut walked = 0u64;
     let mut binding_lost = 0u64;
     let mut binding_samples: Vec<Value> = vec![];
+    let mut capped: Vec<Value> = vec![];
     let mut per_cfg = vec![];
     let mut fine_unbounded_sets: BTreeMap<usize, HashSet<Vec<String>>> = BTreeMap::new();
     for (kind, c, v) in &results {
@@ -506,7 +526,10 @@ pub fn check(tier: &str, std_bin: &str) -> i32 {
                 binding_samples.push(json!({"cfg": c.json(), "sample": b}));
             }
         }
-        per_cfg.push(json!({"kind": kind, "cfg": c.json(), "partitions": c.partitions(), "schedules": v["schedules"], "max_scheduling_points": v["max_depth"], "distinct_event_traces": v["distinct_event_traces"], "seconds": v["seconds"], "failed": v["failed"]}));
+        per_cfg.push(json!({"kind": kind, "cfg": c.json(), "partitions": c.partitions(), "schedules": v["schedules"], "max_scheduling_points": v["max_depth"], "distinct_event_traces": v["distinct_event_traces"], "seconds": v["seconds"], "failed": v["failed"], "capped_by_time_budget": v["capped"]}));
+        if v["capped"].as_bool().unwrap_or(false) {
+            capped.push(json!({"kind": kind, "cfg": c.json(), "schedules_before_cap": v["schedules"]}));
+        }
         for f in v["findings"].as_array().cloned().unwrap_or_default() {
             out.violation(f["clause"].as_str().unwrap(), f["case"].clone(), f["detail"].clone());
         }
@@ -520,6 +543,9 @@ pub fn check(tier: &str, std_bin: &str) -> i32 {
         }
     }
     println!("parts 1-2: {} configurations, {} schedules, {} distinct event traces, all walked through the model ({:.1}s)", results.len(), schedules_total, distinct_traces_total, t0.elapsed().as_secs_f64());
+    if !capped.is_empty() {
+        println!("CAPPED: {} configuration(s) hit the {} s budget before their schedule tree was exhausted (reported as not exhaustive): {}", capped.len(), budget_s, json!(capped));
+    }
 
     // ---- determinism check: one recorded schedule replayed twice gives identical observations
     let det_cfg = Cfg { w: 3, days: 3, threshold: 0, fine: true, bound: None };
@@ -667,8 +693,8 @@ pub fn check(tier: &str, std_bin: &str) -> i32 {
 
     // ---- assumption monitor: the event-granularity argument needs workers that share no mutable state
     // outside the wrapped thread/channel operations. Scan the library sources for constructs that
-    // would introduce such state (statics with interior mutability, static mut, thread_local, lazies, and any synchronisation
-    // primitive other than the wrapped thread/channel ones: atomics, locks, Arc, unsafe).
+    // would introduce such state (statics with interior mutability, static mut, thread_local, lazies, unsafe, non-std primitives).
+    // Locks, atomics, condvars and threads from std are seen by the scheduler through the build-time redirection.
     let repo = std::env::var("IPT_REPO_DIR").unwrap_or_else(|_| "/repo".to_string());
     let mut shared_state_sites: Vec<String> = vec![];
     fn scan(dir: &std::path::Path, out: &mut Vec<String>) {
@@ -686,7 +712,9 @@ pub fn check(tier: &str, std_bin: &str) -> i32 {
                             }
                             let is_static = t.starts_with("static ") || t.starts_with("pub static ") || t.starts_with("pub(crate) static ");
                             let interior = ["Mutex", "RwLock", "Atomic", "Cell", "OnceLock", "OnceCell", "LazyLock", "Lazy<"].iter().any(|k| t.contains(k));
-                            let sync_outside_shim = ["Atomic", "Mutex", "RwLock", "Condvar", "Barrier", "UnsafeCell", "unsafe ", "Arc<", "Arc::"].iter().any(|k| t.contains(k));
+                            // std::sync / std::thread are redirected to the scheduler-aware shim at build time
+                            // (tools/redirect_sync.py); what that cannot cover is flagged here
+                            let sync_outside_shim = ["UnsafeCell", "unsafe ", "OnceLock", "OnceCell", "LazyLock", "parking_lot", "crossbeam", "std as "].iter().any(|k| t.contains(k));
                             if t.contains("static mut ") || t.contains("thread_local!") || t.contains("lazy_static!") || (is_static && interior) || sync_outside_shim {
                                 out.push(format!("{}:{}: {}", p.display(), i + 1, t));
                             }
@@ -698,7 +726,7 @@ pub fn check(tier: &str, std_bin: &str) -> i32 {
     }
     scan(std::path::Path::new(&format!("{}/src", repo)), &mut shared_state_sites);
     if !shared_state_sites.is_empty() {
-        println!("ASSUMPTION-WARNING: the library now contains shared mutable state outside the wrapped thread/channel operations; accesses to it are NOT scheduling points of this exploration (interleavings inside them are not covered): {:?}", shared_state_sites);
+        println!("ASSUMPTION-WARNING: the library contains shared mutable state that the controlled scheduler does not see (statics, thread-locals, unsafe, non-std primitives); interleavings inside accesses to it are not covered: {:?}", shared_state_sites);
     }
 
     // ---- evidence
@@ -722,7 +750,8 @@ pub fn check(tier: &str, std_bin: &str) -> i32 {
                 {"kind": "model trace replayed on the real code (actor:event; 0 main, 1 collector, 2+i worker i)", "partitions": 2, "trace": sample_trace},
                 {"kind": "real-code exploration", "example": per_cfg.first()},
             ],
-            "exhaustive": true,
+            "exhaustive": capped.is_empty(),
+            "configurations_capped_by_time_budget": capped,
             "evaluations": schedules_total + replayed_total,
             "distinct_nontrivial": distinct_traces_total,
             "rule": "evaluations = schedules of the real code executed (DFS) + model traces replayed on it; distinct_nontrivial = distinct event traces (not schedules) observed per configuration, summed",
@@ -755,12 +784,12 @@ pub fn check(tier: &str, std_bin: &str) -> i32 {
 }
 
 /// child: explore one configuration, walk every distinct trace through the model, print one RESULT line
-pub fn child_cfg(cfg_json: &str, want_traces: bool) -> i32 {
+pub fn child_cfg(cfg_json: &str, want_traces: bool, budget_s: Option<f64>) -> i32 {
     install_quiet_hook();
     let cfg = Cfg::from_json(&serde_json::from_str(cfg_json).expect("cfg json"));
     let out = Out { violations: AtomicU64::new(0), files: Mutex::new(vec![]), tier: String::new(), collect: Some(Mutex::new(vec![])) };
     let t = Instant::now();
-    let e = explore_cfg(&cfg, &out);
+    let e = explore_cfg(&cfg, &out, budget_s);
     let mut walked = 0u64;
     let mut lost = 0u64;
     let mut lost_samples: Vec<Value> = vec![];
@@ -788,7 +817,7 @@ pub fn child_cfg(cfg_json: &str, want_traces: bool) -> i32 {
     }
     let traces: Option<Vec<Vec<String>>> = if want_traces { Some(e.traces.iter().map(|t| fmt_trace(t)).collect()) } else { None };
     let findings = out.collect.as_ref().unwrap().lock().unwrap().clone();
-    println!("RESULT {}", json!({"schedules": e.schedules, "max_depth": e.max_depth, "distinct_event_traces": e.traces.len(), "walked_through_model": walked, "failed": e.failed, "seconds": t.elapsed().as_secs_f64(), "findings": findings, "traces": traces, "binding_lost": lost, "binding_lost_samples": lost_samples}));
+    println!("RESULT {}", json!({"schedules": e.schedules, "max_depth": e.max_depth, "distinct_event_traces": e.traces.len(), "walked_through_model": walked, "failed": e.failed, "capped": e.capped, "seconds": t.elapsed().as_secs_f64(), "findings": findings, "traces": traces, "binding_lost": lost, "binding_lost_samples": lost_samples}));
     0
 }
 
@@ -889,7 +918,7 @@ pub fn main() {
     let code = match a.get(1).map(|s| s.as_str()) {
         Some("check") => check(a.get(2).map(|s| s.as_str()).unwrap_or("quick"), a.get(3).map(|s| s.as_str()).unwrap_or("")),
         Some("replay") => replay(&a[2], a.get(3).map(|s| s.as_str()).unwrap_or("")),
-        Some("child-cfg") => child_cfg(&a[2], a.get(3).map(|s| s == "traces").unwrap_or(false)),
+        Some("child-cfg") => child_cfg(&a[2], a.get(3).map(|s| s == "traces").unwrap_or(false), a.get(4).and_then(|s| s.parse().ok())),
         Some("child-guided") => child_guided(a[2].parse().unwrap(), a[3].parse().ok(), a[4].parse().unwrap(), a[5].parse().unwrap()),
         _ => {
             eprintln!("usage: ipt-sched check <tier> <std-binary> | replay <file> <std-binary>");
